@@ -172,9 +172,18 @@ theorem plain_reserved (s : String) (h : Reserved s) : plainTok ((s : String) : 
 theorem plain_makeIdent (pre : String) (f : FieldE) (h : Reserved pre) : plainTok ((f.makeIdent pre : String) : GTok) = true :=
   plain_reserved _ (reserved_makeIdent pre f h)
 
+theorem bal_autoDerived : Bal autoDerived := by unfold Bal; exact fun _ => rfl
+theorem bal_allowUserLints : Bal allowUserLints := by unfold Bal; exact fun _ => rfl
+theorem bal_cmpAttrs : Bal cmpAttrs := by unfold Bal; exact fun _ => rfl
+theorem bal_cmpAllowAttrs : Bal cmpAllowAttrs := by unfold Bal; exact fun _ => rfl
+
 /-- one step: split the list, enter a delimited group, discharge a single token -/
 macro "bal_step" : tactic => `(tactic| first
   | exact bal_nil
+  | exact bal_autoDerived
+  | exact bal_allowUserLints
+  | exact bal_cmpAttrs
+  | exact bal_cmpAllowAttrs
   | exact bal_U _
   | assumption
   | exact plain_u _
@@ -269,7 +278,6 @@ theorem bal_withRef {ts : GToks} (r : Bool) (h : Bal ts) : Bal (withRef ts r) :=
 theorem bal_memberOf (this : GTok) (hp : plainTok this = true) (f : FieldE) : Bal (memberOf this f) := by
   unfold memberOf; bal
 
-theorem bal_autoDerived : Bal autoDerived := by unfold Bal; exact fun _ => rfl
 
 theorem bal_implItem {attrs implG trait_ selfTy wheres body : GToks} (h1 : Bal attrs) (h2 : Bal implG) (h3 : Bal trait_)
     (h4 : Bal selfTy) (h5 : Bal wheres) (h6 : Bal body) : Bal (implItem attrs implG trait_ selfTy wheres body) := by
@@ -767,8 +775,6 @@ theorem bal_cmpInner (c : CmpImpl) : Bal c.inner := by
         bal2
       bal2
 
-theorem bal_cmpAttrs : Bal cmpAttrs := by unfold Bal; exact fun _ => rfl
-theorem bal_cmpAllowAttrs : Bal cmpAllowAttrs := by unfold Bal; exact fun _ => rfl
 
 set_option maxHeartbeats 800000 in
 theorem bal_cmp (c : CmpImpl) : ∀ ts ∈ c.render, Bal ts := by
@@ -954,9 +960,11 @@ Each generated segment starts with `#[automatically_derived] impl` (for the hidd
 
 theorem strs_append (a b : GToks) : GToks.strs (a ++ b) = GToks.strs a ++ GToks.strs b := by simp [GToks.strs]
 
-def itemHead : List String := ["#", "[", "automatically_derived", "]"]
+def itemHead : List String :=
+  ["#", "[", "allow", "(", "deprecated", ",", "non_camel_case_types", ",", "non_snake_case", ",", "non_upper_case_globals", ")", "]",
+   "#", "[", "automatically_derived", "]"]
 
-/-- the segment starts with `#[automatically_derived]` or with `const _` -/
+/-- the segment starts with `#[allow(..)] #[automatically_derived]` or with `const _` -/
 def StartsLikeItem (ts : GToks) : Prop :=
   (∃ rest, GToks.strs ts = itemHead ++ rest) ∨ (∃ rest, GToks.strs ts = "const" :: "_" :: rest)
 
@@ -972,8 +980,7 @@ theorem starts_implItem (implG trait_ selfTy wheres body : GToks) :
   left
   unfold implItem
   simp only [gapp_eq, gcons_eq]
-  repeat' apply prefix_append_left
-  exact ⟨[], by rw [autoDerived_strs, List.append_nil]⟩
+  repeat (first | exact ⟨[], by rw [autoDerived_strs, List.append_nil]⟩ | apply prefix_append_left)
 
 theorem starts_ops (o : OpsImpl) : ∀ ts ∈ o.render, StartsLikeItem ts := by
   intro ts hts
@@ -990,6 +997,9 @@ theorem starts_debug (d : DebugImpl) : StartsLikeItem d.render := by unfold Debu
 theorem starts_default (d : DefaultImpl) : StartsLikeItem d.render := by unfold DefaultImpl.render; exact starts_implItem _ _ _ _ _
 theorem starts_deref (d : DerefImpl) : StartsLikeItem d.render := by unfold DerefImpl.render; exact starts_implItem _ _ _ _ _
 
+theorem cmpAttrs_head : ∃ rest, GToks.strs cmpAttrs = itemHead ++ rest :=
+  ⟨GToks.strs (genAttr ["allow", "(", "clippy", "::", "double_parens", ")"] +++ genAttr ["allow", "(", "unused_parens", ")"]), by decide⟩
+
 theorem starts_cmp (c : CmpImpl) : ∀ ts ∈ c.render, StartsLikeItem ts := by
   intro ts hts
   unfold CmpImpl.render at hts
@@ -999,13 +1009,11 @@ theorem starts_cmp (c : CmpImpl) : ∀ ts ∈ c.render, StartsLikeItem ts := by
     | (subst hts
        left
        simp only [gapp_eq, gcons_eq]
-       repeat' apply prefix_append_left
-       exact ⟨[], by decide⟩)
+       repeat (first | exact cmpAttrs_head | apply prefix_append_left))
     | (rcases hts with rfl | rfl
        · left
          simp only [gapp_eq, gcons_eq]
-         repeat' apply prefix_append_left
-         exact ⟨[], by decide⟩
+         repeat (first | exact cmpAttrs_head | apply prefix_append_left)
        · right
          exact ⟨_, rfl⟩)
 
